@@ -462,6 +462,21 @@ pub fn run(ctx: &Ctx, rep: &mut Report) {
         }
         return;
     }
+    if ctx.extra.iter().any(|a| a == "--tiny") {
+        // Miri tier: a few small CRC-valid malformed files per process through every entry point
+        let mut rng = ctx.rng(0x7104);
+        let mut done = 0;
+        let mut tries = 0;
+        while done < 1 && tries < 400 {
+            tries += 1;
+            let (b, what) = malformed_case_in(&mut rng, None, tries % 5 == 0);
+            if b.len() <= 200 {
+                run_one(rep, &b, &what, "malform-knob");
+                done += 1;
+            }
+        }
+        return;
+    }
     let mut rng = ctx.rng(0xC04);
     // (a) every malform knob x a few surroundings (each-choice)
     let reps = if ctx.thorough { 16 } else { 6 };
